@@ -20,3 +20,11 @@ package soymsg
 //@     orderassume forallof(a, ast.Node, haskey(equivNodeToRepNodes, a) ==> !haskey(equivNodeToRepNodes, equivNodeToRepNodes[a]))
 //@   loop 7
 //@     exitany -- the panicking arm is for node types phNodes never queues; which offending node is named first is irrelevant
+
+// C08 / C09: building the placeholder string reads the message tree and writes
+// only into the caller's buffer (a bytes.Buffer, outside the model).
+//@ func writeFingerprint
+//@   props C08 C09
+//@   nosafety
+//@   noterm
+//@   pure
